@@ -9,7 +9,6 @@ Section DBReadP.
 Variable E : env.
 Variable C : cenv.
 Variable norm : point -> point.
-Variable inplace : bool.
 
 (* the state invariant: stored points are well-formed, and an index flagged valid describes them *)
 Definition Inv (s : state) : Prop :=
